@@ -16,7 +16,7 @@ CLAIMED = {
  "C12": dict(
   engine="choice-stream edit-history simulation with save+restart as a generated operation; the pre-save application is the reference",
   category="exploration",
-  text="Generated edit histories (5-60 operations over all 76 registered node types plus two harness types: create, connect incl. bursts of up to 14 connections on array ports, disconnect, parameter value/name/description for all 11 parameter types, producers, metadata, delete) run on a real generator.App through the calls the edit server makes; 'save + restart' is one more generated operation after which only the bytes of App.Schema() survive: they are loaded into fresh Apps and compared (re-saved bytes, structure through the public schema, artifacts of deterministic producers), and the history continues on the reloaded App (some saves are autosaves: the file is checked the same way, the session continues on the live App); some histories start from the shipped examples/graphs/ufo.json, which loaded and saved must reproduce its bytes. The same histories run a second time in the -race build (parallelism a library may use inside save/load is then judged by the race detector). Sampled histories.",
+  text="Generated edit histories (5-60 operations over all 76 registered node types plus four harness types (one hand-written with two output ports): create, connect incl. bursts of up to 14 connections on array ports, disconnect, parameter value/name/description for all 11 parameter types, producers, metadata, delete) run on a real generator.App through the calls the edit server makes; 'save + restart' is one more generated operation after which only the bytes of App.Schema() survive: they are loaded into fresh Apps and compared (re-saved bytes, structure through the public schema, artifacts of deterministic producers), and the history continues on the reloaded App (some saves are autosaves: the file is checked the same way, the session continues on the live App); some histories start from the shipped examples/graphs/ufo.json, which loaded and saved must reproduce its bytes. The same histories run a second time in the -race build (parallelism a library may use inside save/load is then judged by the race detector). Sampled histories.",
   design_ref="DESIGN.md 3.4",
   note="Trusts: the live pre-save application as the reference; a type-based exclusion list for nondeterministic node types in the artifact clause; parameter defaults and execution counters are not compared. One known finding (root cause in the jbtf dependency) is listed in known_findings.txt.",
   technique="deterministic simulation: seeded edit histories with crash/restart (only saved bytes survive) against the live pre-restart state",
@@ -48,7 +48,7 @@ CLAIMED = {
  "C11": dict(
   engine="choice-stream history simulation vs. from-scratch evaluator; seeded map-order seam",
   category="exploration",
-  text="Generated update / re-wire / array-edit / read histories over generated DAGs of real nodes.Struct nodes; after every operation the value read is compared with a from-scratch evaluation, executions with a dirty-set model (no execution without a change upstream, at most once per operation - judged after every operation, whichever call triggered them) and versions with execution counts; the order in which a node enumerates its dependencies (Go map order) is a seeded, replayable choice. Sampled histories.",
+  text="Generated update / re-wire / array-edit / read histories over generated DAGs of real nodes.Struct nodes; after every operation the value read is compared with a from-scratch evaluation, executions with a dirty-set model (no execution without a change upstream, at most once per operation - judged after every operation, whichever call triggered them) and versions with execution counts; the order in which a node enumerates its dependencies (Go map order) is a seeded, replayable choice. Sources are parameter.Value, nodes.ValueNode, function-initialised value nodes whose environment changes, and slice-valued value nodes whose slice is edited in place and set again; some sources have subscribers that read a node from inside the update's alert. Sampled histories.",
   design_ref="DESIGN.md 3.3",
   note="Trusts: harness processors are injective in their inputs; the permissive reading of 'changed' (equal-value updates and upstream re-wiring count as changes).",
   technique="deterministic simulation: seeded operation histories with a nondeterminism seam (map order) against an executable reference model",
